@@ -390,6 +390,18 @@ func (s Sink) Discharged() (bool, string) {
 	lenBase := "len(" + s.Base + ")"
 	switch s.Kind {
 	case "index":
+		// the result of a standard search over the base is either -1 or a valid index of it:
+		// only the sign has to be established
+		for _, f := range []string{"slices.Index", "slices.IndexFunc", "bytes.IndexByte", "bytes.Index", "strings.Index", "strings.IndexByte"} {
+			if strings.HasPrefix(op, "call "+f) && strings.Contains(op, "("+s.Base+",") {
+				for _, c := range s.Conds {
+					nonNeg := (c.Op == ">=" && c.R == "const:0") || (c.Op == ">" && c.R == "const:-1") || (c.Op == "!=" && c.R == "const:-1")
+					if c.L == op && nonNeg {
+						return true, "index returned by " + f + " over the same slice and checked non-negative"
+					}
+				}
+			}
+		}
 		if op == "*" || op == "idx" {
 			// range/induction index: needs a loop test against the base's length (or the loop ranges the base itself)
 			for _, c := range s.Conds {
